@@ -168,9 +168,45 @@ def read_case(width: int, nulpos):
     return h
 
 
+def optical_name_case(field, L):
+    """A camera record whose 32-byte name field is given L characters: the record writer must
+    behave like BTSString.write(32, ...) - exact width and terminator for L <= 31, refusal
+    (never truncation, never a missing terminator) for L >= 32."""
+    def h(I):
+        m = I.mod("tdfOpticalSystem")
+        T = I.mod("tdfTypes")
+        names = {"lens_name": "a", "camera_type": "b", "camera_name": "c"}
+        names[field] = I.chars("name", L, kind="valid")
+        ch = m.OpticalChannelData(1, names["lens_name"], names["camera_type"], names["camera_name"],
+                                  T.CameraViewPort(I.np.array([0, 0], dtype="<i4"), I.np.array([640, 480], dtype="<i4")))
+        f = I.BytesIO()
+        try:
+            ch._write(f)
+            exc = None
+        except Exception as e:  # noqa: BLE001
+            exc = e
+        I.observe("exc", type(exc).__name__ if exc else None)
+        if L >= 32:
+            I.goal("too_long")
+            I.prove("C13.stream.too_long_refused", isinstance(exc, ValueError), f"{field} of {L} characters: {type(exc).__name__ if exc else 'accepted'}")
+            return
+        I.goal("fits")
+        I.prove("C13.stream.valid_accepted", exc is None, f"{type(exc).__name__ if exc else ''}")
+        if exc is None:
+            data = f.getvalue()
+            off = 8 + 32 * ["lens_name", "camera_type", "camera_name"].index(field)
+            I.prove("C13.stream.exact_width", len(data) == 120)
+            I.prove("C13.write.terminated_and_zero_padded", data[off + L:off + 32] == b"\x00" * (32 - L))
+            I.prove("C13.stream.lossless", T.BTSString.read(32, data[off:off + 32]) == names[field])
+    return h
+
+
 def instances(tier: str):
     W = WIDTHS_Q if tier == "quick" else WIDTHS_T
     out = []
+    for field in ("lens_name", "camera_type", "camera_name"):
+        for L in ((31, 32, 33) if tier == "quick" else (0, 1, 30, 31, 32, 33, 40, 64)):
+            out.append(Instance(f"optical.{field}.len{L}", optical_name_case(field, L), goals=["too_long" if L >= 32 else "fits"], cost=L))
     for w, lens in W.items():
         for n in lens:
             goals = ["accepted"] if n < w else ["refused"]
